@@ -29,6 +29,9 @@ let () =
       let cnat = if cn = "-" then nat_of_int total else nat_of_int (int_of_string cn) in
       let t = if torn = "-" then None else Some (z_of_string torn) in
       let ((ws, nofuel), hits) = run_case nn pp ops cnat t (List.map key_of qs) in
+      let rec take k l = if k <= 0 then [] else (match l with [] -> [] | x :: r -> x :: take (k - 1) r) in
+      (* the crashing process issues (and the shim logs) the write it dies in *)
+      let ws = if cn = "-" then ws else take (int_of_string cn + 1) ws in
       let wtxt = String.concat "," (List.map (fun (s, l) -> string_of_z s ^ ":" ^ string_of_z l) ws) in
       let htxt = String.concat " " (List.map (function
           | None -> "M"
